@@ -286,11 +286,12 @@ def _backend_entry(ck, prog):
         for call, callee in fz:
             forward(ck, prog, f, call, required=["title", "xLim", "yLim"])
             _, b = bind.bind(prog, f, call)
-            first = call.args[0] if call.args else None
-            src_ok = isinstance(first, ast.Name) and any(isinstance(s, ast.Assign) and unparse(s.targets[0]) == first.id and isinstance(s.value, ast.Call)
-                                                          and prog.resolve_call(f, s.value) is not None and prog.resolve_call(f, s.value).name == marker
-                                                          for s in ast.walk(f.node))
-            ck.ob("ORDER", construct, src_ok, expected="the figure that received the markers is the one finalised", found=unparse(first) if first is not None else None,
+            first = call.args[0] if call.args else b.get(callee.params()[0])
+            ck.shape(first is not None, "%s: the finalising call is handed a figure" % name, f.loc(call))
+            src = bind._resolve_local(f, first) if isinstance(first, ast.Name) else first
+            ck.shape(isinstance(src, ast.Call) and prog.resolve_call(f, src) is not None, "%s: the finalised figure is the result of a resolvable call" % name, f.loc(call))
+            src_ok = prog.resolve_call(f, src).name == marker
+            ck.ob("ORDER", construct, src_ok, expected="the figure that received the markers is the one finalised", found=unparse(first)[:80],
                   slot="same-figure", where=f.loc(call))
         if name.startswith("show_"):
             _getfig_discipline(ck, f)
